@@ -535,6 +535,80 @@ def gen_assert_prog(rng):
     return p
 
 
+def gen_nonwritable_prog(rng):
+    """directed family for banks that only hand out addresses (RAM / variables): a bank with `size` or `addr_end` and NO
+    `outp`, filled with labels, `#res` and `#align` that run up to and past the bank's end (boundary -1 / 0 / +1 unit),
+    referenced from a writable bank.  Reservations and labels past the end are rejected ("output out of range for bank",
+    C06_rejects_reservation / C06_rejects_label); a label exactly AT the end is accepted; a written item in such a bank is
+    rejected ("output to non-writable bank")."""
+    p = Prog2(asm_gen.Isa())
+    p.kind = 'nonwritable'
+    it = p.items
+    unit = rng.weighted([(8, 70), (4, 10), (16, 10), (1, 10)])
+    size = rng.choice([1, 2, 4, 4, 8, 16])                      # in address units
+    a = rng.choice([0x8000, 0x80, 0x10, 0, -0x10])
+    hx = lambda v: ('0x%x' % v) if v >= 0 else '-0x%x' % -v
+    ram = {'addr': hx(a)}
+    if unit != 8 or rng.chance(0.3):
+        ram['bits'] = str(unit)
+    if rng.chance(0.3):
+        ram['addr_end'] = hx(a + size)
+    else:
+        ram['size'] = hx(size)
+    if rng.chance(0.15):
+        ram['labelalign'] = str(rng.choice([unit, 2 * unit]))
+    rom = {'addr': '0x0', 'size': '0x40', 'outp': '0x0'}
+    defs = [('bankdef', 'rom', rom), ('bankdef', 'ram', ram)]
+    if rng.chance(0.5):
+        defs.reverse()
+    it.extend(defs)
+    # what is placed in ram: total = size + delta address units (delta around 0)
+    total = max(0, size + rng.choice([-2, -1, -1, 0, 0, 0, 1, 1, 2, 5]))
+    ram_items = []
+    left = total
+    names = []
+    k = 0
+    while left > 0 or not ram_items:
+        if rng.chance(0.55) or left == 0:
+            n = 'v%d' % k; k += 1
+            names.append(n)
+            ram_items.append(('label', n, 0))
+            if rng.chance(0.2):
+                ram_items.append(('label', rng.choice(LOCALS), 1))
+            if left == 0:
+                break
+        step = rng.range(1, min(left, 4))
+        form = rng.below(100)
+        if form < 75:
+            ram_items.append(('res', str(step)))
+        elif form < 90:
+            ram_items.append(('res', '%s - %s + %d' % (names[-1], names[-1], step)) if names else ('res', str(step)))
+        else:
+            ram_items.append(('align', str(unit * (total - left + step))))         # aligns the POSITION up to ... bits when addr*unit is a multiple
+            # (an alignment is relative to the absolute address in bits; whatever it does, impl = model)
+        left -= step
+    if rng.chance(0.6):
+        n = 'end%d' % k
+        names.append(n)
+        ram_items.append(('label', n, 0))                                          # a label AT the reached position (accepted iff <= size)
+    if rng.chance(0.06):
+        ram_items.append(('data', 8, ['1']))                                       # a write into the non-writable bank: rejected
+    rom_items = []
+    for n in names:
+        if rng.chance(0.7):
+            rom_items.append(('data', 32, [n if rng.chance(0.7) else '%s - %s' % (n, names[0])]))
+    if not rom_items:
+        rom_items.append(('data', 8, ['0x55']))
+    if rng.chance(0.5):
+        it.append(('bank', 'ram')); it.extend(ram_items); it.append(('bank', 'rom')); it.extend(rom_items)
+    else:
+        it.append(('bank', 'rom')); it.extend(rom_items); it.append(('bank', 'ram')); it.extend(ram_items)
+        if rng.chance(0.3):
+            it.append(('bank', 'rom')); it.append(('data', 8, ['0xaa']))
+    p.names = names + LOCALS
+    return p
+
+
 def gen_prog2(rng):
     """one program of the Resolver2 streams; .kind names the family"""
     k = rng.below(100)
@@ -542,6 +616,8 @@ def gen_prog2(rng):
         return gen_edge_prog(rng)
     if k < 8:
         return gen_assert_prog(rng)
+    if k < 11:
+        return gen_nonwritable_prog(rng)
     if k < 14:
         p = decorate(rng, asm_gen.gen_chain_prog(rng), gentle=True); p.kind = 'chain'
     elif k < 25:
